@@ -3,7 +3,7 @@ import ast
 
 import z3
 
-from .sorts import (PyDict, PyProperty, ArrT, SV, PyVal, PyTuple, Closure, BoundMethod, ModuleRef, ClassRef, SpecFn, INT, BOOL, STR, REAL, VAL, NONE,
+from .sorts import (PyNav, PyDict, PyProperty, ArrT, SV, PyVal, PyTuple, Closure, BoundMethod, ModuleRef, ClassRef, SpecFn, INT, BOOL, STR, REAL, VAL, NONE,
                     NONE_V, RefT, SeqT, SetT, MapT, TupT, Val, Ref, null, zsort, fresh, mk_bool, mk_int, mk_str, fresh_name)
 from .values import (nth, OutsideSubset, coerce, box, unbox, py_eq, truthy, ite, tup_items, empty_map, join_sort, is_ref,
                      int_to_str, str_to_int, is_int_literal, default_term)
@@ -108,14 +108,27 @@ class CallMixin(object):
             n = fv.name
             if n.startswith('builtin:'):
                 return self.call_builtin(n[8:], args, kwargs, st, node)
+            if n.startswith('func:') and n[5:] in ('navigate_one', 'navigate_any', 'navigate_many') and self.reg.function(n[5:]) is None:
+                return PyNav({'navigate_one': 'one', 'navigate_any': 'one', 'navigate_many': 'many'}[n[5:]], args[0])
             if n.startswith('func:'):
                 ct = self.reg.function(n[5:])
                 if ct is None:
                     if n[5:] in self.reg.specfns:
                         return self.call_specfn(n[5:], args, kwargs, st)
+                    helper = self.find_module_helper(n[5:])
+                    if helper is not None and not self.spec_mode:
+                        return self.inline_helper(helper, args, kwargs, st)
                     raise OutsideSubset('call to %s: no contract' % n[5:])
                 return self.call_contract(ct, args, kwargs, st)
             return self.call_specfn(n, args, kwargs, st)
+        if isinstance(fv, PyNav):
+            return self.finish_nav(fv, args, st)
+        if isinstance(fv, BoundMethod) and isinstance(fv.recv, PyNav) and fv.name == 'nav':
+            kl = z3.simplify(args[0].t)
+            if not z3.is_string_value(kl):
+                raise OutsideSubset('nav() with a computed class')
+            step = PyNav(fv.recv.kind, fv.recv.handle, fv.recv.chain, kl.as_string())
+            return self.getitem(step, PyTuple(args[1:]) if len(args) > 2 else args[1], st)
         if isinstance(fv, Closure):
             return self.call_closure(fv, args, kwargs, st)
         if isinstance(fv, ClassRef):
@@ -132,6 +145,9 @@ class CallMixin(object):
                 if ct is None and self.reg.class_info(recv.sort.cls, 'dictfield') and fv.name in ('items', 'keys', 'values', 'get'):
                     return self.call_lib_method(self.dict_of(st, recv), fv.name, args, kwargs, st, None)
                 if ct is None:
+                    helper = self.find_helper(recv.sort.cls, fv.name)
+                    if helper is not None and not self.spec_mode:
+                        return self.inline_helper(helper, [recv] + args, kwargs, st)
                     raise OutsideSubset('call to %s.%s: no contract' % (recv.sort.cls, fv.name))
                 if not self.spec_mode:
                     self.raise_if(st, recv.t == null, 'AttributeError', 'method call on None')
@@ -281,6 +297,62 @@ class CallMixin(object):
         elif args or kwargs:
             raise OutsideSubset('constructor %s: no contract' % cls)
         return obj
+
+    def finish_nav(self, nav, args, st):
+        """one(x).A[1].B[2](filter): the navigation DSL, lowered to the abstract result nav(x, chain, filter) — assumed contract of
+        xtuml.meta.NavChain (C09): the `one`/`any` forms return the first element of the `many` form or None"""
+        if nav.pending is not None:
+            raise OutsideSubset('navigation without association')
+        filt = 0
+        if args:
+            if len(args) != 1 or not isinstance(args[0], Closure):
+                raise OutsideSubset('navigation filter that is not a lambda')
+            filt = int.from_bytes(__import__('hashlib').sha1(ast.unparse(args[0].node).encode()).digest()[:4], 'big')
+        h = nav.handle
+        chain = z3.StringVal(nav.chain)
+        if isinstance(h, PyVal):
+            raise OutsideSubset('navigation from a verification-time value')
+        if is_ref(h.sort) or h.sort == NONE or h.sort == VAL:
+            hv = coerce(h, RefT('Class')).t
+            allf = z3.Function('u_nav_all', Ref, z3.StringSort(), z3.IntSort(), z3.SeqSort(Ref))
+            seq = allf(hv, chain, z3.IntVal(filt))
+        elif isinstance(h.sort, SeqT):
+            allf = z3.Function('u_nav_all_from_set', z3.SeqSort(Ref), z3.StringSort(), z3.IntSort(), z3.SeqSort(Ref))
+            seq = allf(coerce(h, SeqT(RefT('Class'))).t, chain, z3.IntVal(filt))
+        else:
+            raise OutsideSubset('navigation from %s' % h.sort)
+        if nav.kind == 'many':
+            return SV(SeqT(RefT('Class')), seq)
+        r = SV(RefT('Class'), z3.If(z3.Length(seq) > 0, nth(seq, 0), null))
+        return r
+
+    def find_helper(self, cls, name):
+        """a method without contract that is defined in the source of the receiver's class (or a base class in the repo): helpers
+        introduced by a refactoring are executed as part of the caller (inlined, depth-limited), not treated as unknown callees"""
+        for c in self.reg.mro(cls):
+            ci = self.prog.classes.get(c)
+            if ci and name in ci['methods'] and not ci['module'].startswith('_collections'):
+                return ci['methods'][name]
+        return None
+
+    def find_module_helper(self, name):
+        if not self.cur_module or self.cur_module.startswith('contracts'):
+            return None
+        path, tree, src = self.prog.load(self.cur_module)
+        for t in tree.body:
+            if isinstance(t, ast.FunctionDef) and t.name == name:
+                return t
+        return None
+
+    def inline_helper(self, fn, args, kwargs, st):
+        depth = getattr(self, '_inline_depth', 0)
+        if depth >= 3:
+            raise OutsideSubset('helper inlining deeper than 3 (%s)' % fn.name)
+        self._inline_depth = depth + 1
+        try:
+            return self.call_closure(Closure(fn, {}, None), args, kwargs, st)
+        finally:
+            self._inline_depth = depth
 
     # ---------------------------------------------------------------- callee contracts
     def bind_args(self, ct, args, kwargs, st):
@@ -842,7 +914,7 @@ class CallMixin(object):
                     return SV(STR, f(recv.t, a, b))
                 raise OutsideSubset('str.replace with symbolic patterns')
             if name == 'count':
-                f = z3.Function('str_count', z3.StringSort(), z3.StringSort(), z3.IntSort())
+                f = z3.Function('u_str_count', z3.StringSort(), z3.StringSort(), z3.IntSort())
                 r = f(recv.t, args[0].t)
                 st.assume(z3.And(r >= 0, r <= z3.Length(recv.t)))
                 return SV(INT, r)
